@@ -75,6 +75,9 @@ pub struct Req {
     pub pad: usize,
     pub delay_ms: u32,
     pub timeout_ms: Option<u64>,
+    /// send through a clone of the configured client (clients are cloned to be shared)
+    #[serde(default)]
+    pub via_clone: bool,
 }
 
 #[derive(serde::Serialize, serde::Deserialize, Clone, Debug)]
@@ -138,7 +141,7 @@ impl Check for C14 {
         "E2: one server host (real datacake-rpc Server, handler logs executions per request id, optional handler delay) and one client host (real RpcClient/Channel) over simulated TCP with timed hold/release, partition/repair (also mid-stream) and server kill+restart"
     }
     fn rule(&self) -> &'static str {
-        "Cases: 2-14 waves of 1-12 concurrent requests with unique ids, payloads 0-20 KiB, handler delays 0-600 ms, per-request client timeouts 30-2500 ms or none, several clients sharing one Channel (first use raced) or a fresh Channel per wave; 0-8 fault events at seeded times: link hold/release, partition/repair (segments of established streams are dropped), server kill+restart. Oracle over the recorded results: each is Ok(f(id, payload size)) carrying its own id, or ConnectionError/Timeout; the handler ran at most once per id and at least once for every Ok; a request with client timeout T returned within T + 2 ms; nothing panics. Requests without a timeout that are black-holed are abandoned by the harness after 30 simulated s (allowed). Non-trivial = a fault event lies between the first and last wave and >= 2 requests overlapped. Distinct = hash of the result-kind sequence."
+        "Cases: 2-14 waves of 1-12 concurrent requests with unique ids, payloads 0-20 KiB, handler delays 0-600 ms, per-request client timeouts 30-2500 ms or none (the configured client used directly or through a clone), several clients sharing one Channel (first use raced) or a fresh Channel per wave; 0-8 fault events at seeded times: link hold/release, partition/repair (segments of established streams are dropped), server kill+restart. Oracle over the recorded results: each is Ok(f(id, payload size)) carrying its own id, or ConnectionError/Timeout; the handler ran at most once per id and at least once for every Ok; a request with client timeout T returned within T + 2 ms; nothing panics. Requests without a timeout that are black-holed are abandoned by the harness after 30 simulated s (allowed). Non-trivial = a fault event lies between the first and last wave and >= 2 requests overlapped. Distinct = hash of the result-kind sequence."
     }
     fn assumptions(&self) -> Vec<String> {
         vec![
@@ -151,8 +154,8 @@ impl Check for C14 {
     }
     fn budget(&self, tier: Tier) -> Budget {
         match tier {
-            Tier::Quick => Budget { wall_secs: 60, max_cases: 3_000, checkpoint_every: 1, workers: 16 },
-            Tier::Thorough => Budget { wall_secs: 600, max_cases: 200_000, checkpoint_every: 1, workers: 16 },
+            Tier::Quick => Budget { wall_secs: 60, max_cases: 12_000, checkpoint_every: 1, workers: 16 },
+            Tier::Thorough => Budget { wall_secs: 900, max_cases: 1_000_000, checkpoint_every: 1, workers: 16 },
         }
     }
     fn generate(&self, seed: u64, idx: u64, _tier: Tier) -> Value {
@@ -171,6 +174,7 @@ impl Check for C14 {
                     },
                     delay_ms: if rng.gen_bool(0.3) { rng.gen_range(1..600) } else { 0 },
                     timeout_ms: if rng.gen_bool(0.6) { Some(rng.gen_range(30..2_500)) } else { None },
+                    via_clone: rng.gen_bool(0.4),
                 })
                 .collect();
             events.push(Ev::Wave { t, new_channel: w > 0 && rng.gen_bool(0.25), reqs });
@@ -243,6 +247,7 @@ impl Check for C14 {
                             if let Some(t) = r.timeout_ms {
                                 c.set_timeout(Duration::from_millis(t));
                             }
+                            let c = if r.via_clone { c.clone() } else { c };
                             let done = done.clone();
                             tokio::task::spawn_local(async move {
                                 let msg = Msg { id, delay_ms: r.delay_ms, pad: vec![7u8; r.pad] };
